@@ -10,7 +10,9 @@ Inductive c19case :=
 | CCopy (ops : list op) (flat : option V) (reads : list (N * V * obs * obs))
 (* other data types: responses of source and copy at each version, already compared byte-wise
    by the driver after canonicalisation; eq = they were equal *)
-| COther (typ : N) (flat : bool) (results : list (V * bool)).
+| COther (typ : N) (flat : bool) (results : list (V * bool))
+(* CopyInstance returned an error or panicked *)
+| CCopyFail (typ : N) (ops : list op) (flat : option V).
 
 Definition state_after (ops : list op) : core := run ops core_init.
 
@@ -31,6 +33,7 @@ Definition model_ok (x : c19case) : bool :=
                         && obs_matches_http osrc (get c' k v)
                       end) reads
   | COther _ _ _ => true
+  | CCopyFail _ _ _ => true
   end.
 
 Definition obs_same_value (a b : obs) : bool :=
@@ -59,6 +62,16 @@ Definition spec_class (x : c19case) : nat :=
     then 0%nat else 1%nat
   | COther _ flat results =>
     if forallb (fun r => snd r) results then 0%nat else 2%nat
+  | CCopyFail typ ops flat =>
+    (* the only legitimate failure: a flattened keyvalue copy at a version where some key is in
+       unresolved merge conflict (the range read it is built on fails) *)
+    match flat with
+    | Some v =>
+      if (typ =? 0) && existsb (fun k => match get (state_after ops) k v with RConflict => true | _ => false end)
+                               [0;1;2;3;4;5;6;7;8;9]
+      then 0%nat else 4%nat
+    | None => 4%nat
+    end
   end.
 
 Fixpoint classify_from (i : nat) (l : list c19case) : list (nat * nat) :=
